@@ -58,6 +58,20 @@ THEOREMS = {
                                       "EPG.gen_result_int_preserved", "EPG.gen_result_XY_preserved", "EPG.gen_entry_points_forward",
                                       "EPG.gen_select_backend_table", "EPG.gen_check_starts_bounds_iff"],
     "SpecKitV.Props.EntryPointsLpsd": ["EPLpsd.gen_lpsd_core_translated_backend", "EPLpsd.selTranslated_names"],
+    # the capstone: `_lpsd_core` / the single-bin section run with the TRANSLATED `_build_Q` (region BuildQ), the TRANSLATED `_select_backend`
+    # (region EntryPoints) and the 18 TRANSLATED kernels = the reference estimator of every bin, for every plan with L >= 1 — no abstract
+    # parameter left for library code; short segments (L <= order) stated outright; NumPy fallbacks with the 1 x 1 basis; scheduler bounds on L
+    "SpecKitV.Props.PipelineClosed": [
+        "PipelineClosed.libQ_cols_min", "PipelineClosed.libQ_cols", "PipelineClosed.libQ_two_cols", "PipelineClosed.old_hypothesis_false",
+        "PipelineClosed.libQ_is_qr", "PipelineClosed.libQ_get_beyond", "PipelineClosed.refStats_libQ_short", "PipelineClosed.refStatsAuto_libQ_short",
+        "PipelineClosed.dispatch_libQ_short", "PipelineClosed.dispatch_libQ_eq_ref_cross", "PipelineClosed.dispatch_libQ_eq_ref_auto",
+        "PipelineClosed.np_poly_csd_onecol", "PipelineClosed.np_poly_auto_onecol", "PipelineClosed.np_poly_csd_libQ_L1",
+        "PipelineClosed.np_poly_auto_libQ_L1", "PipelineClosed.np_numba_agree_poly_libQ", "PipelineClosed.dispatchWith_genFamilyAll_libQ",
+        "PipelineClosed.lpsd_core_libQ_eq_ref_cross", "PipelineClosed.lpsd_core_libQ_eq_ref_auto", "PipelineClosed.lpsd_core_libQ_short",
+        "PipelineClosed.single_bin_libQ", "PipelineClosed.pipeline_closed_cross", "PipelineClosed.pipeline_closed_auto",
+        "PipelineClosed.pipeline_closed_short", "PipelineClosed.pipeline_closed_sums", "PipelineClosed.pipeline_closed_single_bin_cross",
+        "PipelineClosed.pipeline_closed_single_bin_auto", "PipelineClosed.pipeline_closed_single_bin_short",
+        "PipelineClosed.ltfPlan_L_ge_two", "PipelineClosed.lpsdPlan_L_ge_two", "PipelineClosed.newPlan_L_ge_three", "PipelineClosed.hL_of_plan"],
 }
 CONTRACTS = [
     "np.kaiser(L+1, beta)[:-1] is the DFT-even Kaiser window n -> I0(beta*sqrt(1-((n-L/2)/(L/2))^2))/I0(beta): NumPy's I0 is compared each run "
